@@ -1024,8 +1024,36 @@ type scanReader struct {
 	reader sliceio.Reader
 }
 
+// scanContext is the context that the slice scanned by a Scan callback is
+// read with: it is done when the context passed by the callback is, and it
+// resolves values that context does not carry (e.g., the task's metrics
+// scope) from the context of the task that runs the callback. The callback
+// has no access to the task's context, so without this user functions
+// pipelined into the same task would run detached from it.
+type scanContext struct {
+	context.Context
+	task context.Context
+}
+
+func (c scanContext) Value(key interface{}) interface{} {
+	if v := c.Context.Value(key); v != nil {
+		return v
+	}
+	return c.task.Value(key)
+}
+
+type scanDepReader struct {
+	task context.Context
+	sliceio.Reader
+}
+
+func (r scanDepReader) Read(ctx context.Context, out frame.Frame) (int, error) {
+	return r.Reader.Read(scanContext{ctx, r.task}, out)
+}
+
 func (s *scanReader) Read(ctx context.Context, out frame.Frame) (n int, err error) {
-	err = s.slice.scan(s.shard, sliceio.NewScanner(s.slice.Slice, sliceio.NopCloser(s.reader)))
+	dep := scanDepReader{ctx, s.reader}
+	err = s.slice.scan(s.shard, sliceio.NewScanner(s.slice.Slice, sliceio.NopCloser(dep)))
 	if err == nil {
 		err = sliceio.EOF
 	}
